@@ -10,6 +10,7 @@ package c16
 import (
 	"encoding/json"
 	"fmt"
+	"strings"
 	"time"
 
 	outline_prometheus "github.com/Jigsaw-Code/outline-ss-server/prometheus"
@@ -248,6 +249,57 @@ func scenario(in input) *engine.Scenario {
 	return sc
 }
 
+// reportRace: a DNS server that answers at once. The answer fast-closes the association (one
+// query, one response), possibly before the handler loop has reported the datagram it has just
+// relayed: whatever the interleaving, every datagram that reached a target is reported exactly
+// once, and so is every answer relayed to the client.
+func reportRace(n int) *engine.Scenario {
+	tr := &udpx.Trace{}
+	var ops []udpx.Op
+	for i := 0; i < n; i++ {
+		ops = append(ops, udpx.Op{K: "S", C: i % 2, Key: i % 2, T: 0, N: 30 + i})
+	}
+	sc := &engine.Scenario{Name: fmt.Sprintf("report-race-%d", n), Opt: vrt.Options{Horizon: udpx.Horizon, LogYield: true}}
+	sc.Body = func() {
+		udpx.Run(udpx.Config{Keys: udpx.DefaultKeys(), NatTimeout: 5 * time.Minute, AutoReply: []int{0}}, ops, tr)
+	}
+	sc.Check = func(x *vrt.Exec) (string, bool, []*engine.Finding) {
+		fs := hk.Generic(x, hk.Opts{})
+		if len(fs) > 0 {
+			return "generic", true, fs
+		}
+		relayed, answered, fc, ft := 0, 0, 0, 0
+		for _, st := range tr.Steps {
+			relayed += len(st.TargetRecv)
+			answered += len(st.ClientRecv)
+		}
+		for _, m := range tr.AllMetrics {
+			switch m.Kind {
+			case "fromClient":
+				if m.Status == "OK" {
+					fc++
+				}
+			case "fromTarget":
+				if m.Status == "OK" {
+					ft++
+				}
+			}
+		}
+		if fc != relayed {
+			fs = append(fs, &engine.Finding{Sig: "client-report-count", Msg: fmt.Sprintf("%d client datagrams reached the DNS target (which answers at once), %d were reported", relayed, fc)})
+		}
+		if ft != answered {
+			fs = append(fs, &engine.Finding{Sig: "target-report-count", Msg: fmt.Sprintf("%d answers reached the clients, %d were reported", answered, ft)})
+		}
+		return fmt.Sprint(relayed, answered, fc, ft), true, fs
+	}
+	return sc
+}
+
+func raceScenarios() []*engine.Scenario {
+	return []*engine.Scenario{reportRace(1), reportRace(2)}
+}
+
 func menu() []udpx.Op {
 	m := c03.Menu()
 	m = append(m, udpx.Op{K: "A", D: 20 * time.Second}, udpx.Op{K: "A", D: 6 * time.Minute})
@@ -259,6 +311,13 @@ func menu() []udpx.Op {
 
 func init() {
 	hk.Register("C16", func(ctx *engine.Ctx) {
+		bound := 2
+		if ctx.Tier == "thorough" {
+			bound = 4
+		}
+		for _, sc := range raceScenarios() {
+			engine.ExploreS(ctx, sc, engine.SConfig{BothPolicies: true, Bound: bound, Shard: ctx.Shard, NShards: ctx.NShards, Deadline: ctx.Deadline})
+		}
 		depth := 3
 		if ctx.Tier == "thorough" {
 			depth = 4
@@ -288,6 +347,9 @@ func init() {
 		ctx.Res.Note("udp-metrics: all %d^%d sequences; every third one also through the real Prometheus collectors", len(m), depth)
 	})
 	hk.Replayers["C16"] = func(ctx *engine.Ctx, rp engine.Replay) []*engine.Finding {
+		if strings.HasPrefix(rp.Unit, "report-race") {
+			return engine.ReplayScenario(raceScenarios(), rp)
+		}
 		var in input
 		if err := json.Unmarshal(rp.Input, &in); err != nil {
 			return []*engine.Finding{{Sig: "BROKEN:bad-input", Msg: err.Error()}}
